@@ -39,7 +39,19 @@ def pattern(vals):
     return tuple(seen.setdefault(v, len(seen)) for v in vals)
 
 
+_LAST = [None, None]    # [arguments of the latest judge() call in this process, arguments of the one before it]
+
+
+def hist(case):
+    """a frame is judged in a process that has judged other frames before; a failure that depends on what an earlier call left behind
+    (a cache keyed by column name, say) replays only together with that call, so the case records its predecessor"""
+    if _LAST[1] is not None:
+        case = dict(case, after=_LAST[1])
+    return case
+
+
 def judge(columns, rows, order, cap, index=None, is_3mr=False):
+    _LAST[1], _LAST[0] = _LAST[0], {'columns': list(columns), 'rows': [list(r) for r in rows], 'order': order, 'cap': cap, 'index': index, 'is_3mr': is_3mr}
     ok, res = safe(combine, columns, rows, order, cap, None, index, is_3mr)
     if not ok:
         return [({'kind': 'exception'}, f'compute_combined_features raised {res}')]
@@ -88,7 +100,7 @@ def _two_col(job):
         if len(set(fr)) > 1:
             st.count('nontrivial')
         for sig, msg in judge(cols, rows, 2, 2 ** 15):
-            st.violation({'columns': cols, 'rows': rows, 'order': 2, 'cap': 2 ** 15}, msg, sig)
+            st.violation(hist({'columns': cols, 'rows': rows, 'order': 2, 'cap': 2 ** 15}), msg, sig)
     if lo == 0:
         st.sample({'columns': cols, 'rows': [['1', '11', '0'], ['11', '1', '1']], 'order': 2, 'cap': 2 ** 15})
     return st
@@ -125,7 +137,7 @@ def _multi_col(job):
                     st.count('evaluations')
                     st.count('nontrivial')
                     for sig, msg in judge(columns, rows, order, cap):
-                        st.violation({'columns': columns, 'rows': rows, 'order': order, 'cap': cap}, msg, sig)
+                        st.violation(hist({'columns': columns, 'rows': rows, 'order': order, 'cap': cap}), msg, sig)
     return st
 
 
@@ -379,4 +391,7 @@ def eval_case(case):
         return seqdiff.replay(seq_call, seq_menu(tuple(case['job'])), case['seq'])
     if case.get('kind') == 'birthday':
         return [v['what'] for v in _birthday(None).violations]
+    if case.get('after'):
+        a = case['after']
+        judge(a['columns'], a['rows'], a['order'], a['cap'], a.get('index'), bool(a.get('is_3mr')))
     return [m for _, m in judge(case['columns'], case['rows'], case['order'], case['cap'], case.get('index'), bool(case.get('is_3mr')))]
